@@ -6,7 +6,7 @@ from pv.check import run_check
 from pv.entail import entails
 from pv.expr import Ctx, guard_facts, key_contains, key_subst
 from pv.facts import AnalysisBroken, strip_targs
-from pv.loops import covers, enclosing_loops, loop_shape, stmts_of
+from pv.loops import covers, enclosing_loops, loop_shape, stmts_of, no_early_exit
 from pv.symenv import env_at, value_key
 from checks.lehmann import fld, THIS
 
@@ -480,7 +480,7 @@ def body(chk, db, cfgname):
             Ls = enclosing_loops(c, adds[0])
             shp = loop_shape(c, cctx, Ls[0]) if Ls else None
             ak = cctx.key(adds[0], inline=False)
-            poly_ok = shp is not None and shp["kind"] == "index" and shp["start"] == ("lit", 0) and shp["rel"] == "<" and shp["bound"] in (nmodes, pk(c, 0)) and not shp["exits"] and \
+            poly_ok = shp is not None and shp["kind"] == "index" and shp["start"] == ("lit", 0) and shp["rel"] == "<" and shp["bound"] in (nmodes, pk(c, 0)) and no_early_exit(shp) and \
                 ak[3] == ("call", PRE + "n", shp["var"])
         gctx = Ctx(ng, db)
         ket = pk(ng, 0)
